@@ -217,10 +217,19 @@ def as_lin(v):
 
 
 def mode_polarity(pa):
+    """True: the path runs in FIFO mode, False: LIFO, None: not tested (by value: `==` / `!=`, either operand order, either literal)"""
     for e in pa.events:
-        if e.kind == 'cond' and not e.d.get('synthetic') and 'self.mode' in e.text and 'FIFO' in e.text:
+        if e.kind != 'cond' or e.d.get('synthetic'):
+            continue
+        ops = e.d.get('operands')
+        if ops and ops[0] in ('Eq', 'NotEq') and ('self', 'mode') in (ops[1], ops[2]):
+            other = ops[2] if ops[1] == ('self', 'mode') else ops[1]
+            if other in (('const', 'FIFO'), ('const', 'LIFO')):
+                is_eq = (ops[0] == 'Eq') == e.polarity
+                return is_eq if other[1] == 'FIFO' else (not is_eq)
+        if 'self.mode' in e.text and 'FIFO' in e.text and '!=' not in e.text:
             return e.polarity
-        if e.kind == 'cond' and not e.d.get('synthetic') and 'self.mode' in e.text and 'LIFO' in e.text:
+        if 'self.mode' in e.text and 'LIFO' in e.text and '!=' not in e.text:
             return not e.polarity
     return None
 
